@@ -121,6 +121,41 @@ async fn lookups(qs: &QueryServer, d: &srv::Dump) -> Vec<Finding> {
             }
         }
     }
+    // external ids
+    let mut live_ext: BTreeMap<String, Uuid> = BTreeMap::new();
+    for (u, e) in &d.entries {
+        if srv::is_live(e) {
+            for x in srv::dump_strs(e, "sync_external_id") {
+                live_ext.insert(x, *u);
+            }
+        }
+    }
+    for (u, e) in &d.entries {
+        for x in srv::dump_strs(e, "sync_external_id") {
+            let got = r.sync_external_id_to_uuid(&x);
+            match live_ext.get(&x) {
+                Some(owner) => {
+                    if got.as_ref().ok().and_then(|o| *o) != Some(*owner) {
+                        f.push(("c03/externalid-lookup-disagrees-with-scan".into(), format!("external id {x} of live {owner} resolves to {got:?}")));
+                    }
+                }
+                None => {
+                    if let Ok(Some(y)) = got {
+                        f.push(("c03/externalid-of-dead-entry-still-resolves".into(), format!("external id {x} of non-live {u} resolves to {y}")));
+                    }
+                }
+            }
+        }
+    }
+    // ids that were used earlier in this history and are carried by no stored entry any more
+    for i in 0..4u8 {
+        let x = format!("ext{i}");
+        if !d.entries.values().any(|e| srv::dump_strs(e, "sync_external_id").contains(&x)) {
+            if let Ok(Some(y)) = r.sync_external_id_to_uuid(&x) {
+                f.push(("c03/externalid-of-no-entry-still-resolves".into(), format!("external id {x} is on no stored entry but resolves to {y}")));
+            }
+        }
+    }
     // single-term searches agree with the scan for a few indexed attributes
     let mut want_by: BTreeMap<(String, String), BTreeSet<Uuid>> = BTreeMap::new();
     for (u, e) in &d.entries {
@@ -208,7 +243,7 @@ pub fn c03(args: Args) {
         replicas_min: 1, replicas_max: 2, file_backed: true, ops_min: 20, ops_max: args.tier.pick(70, 200), prefill: 0, long_gaps_when_replicated: false, level: kanidmd_lib::constants::DOMAIN_TGT_LEVEL, unique_names: false, home_creates: false, skewed_quarters: 0, late_joiner: false,
         pop: Pop { persons: 4, services: 2, groups: 4, dyngroups: 0, oauths: 1, certs: 1, names: 5 },
         w: Weights { create: 30, create_pair: 2, rename: 16, domain_rename: 2, set_desc: 5, add_member: 12, rem_member: 5, set_manager: 4, delete: 10, revive: 7, purge_recycled: 3, purge_tombstones: 3,
-            reindex: 3, restart: 2, advance_small: 3, advance_big: 4, repl: 8, abort: 3, ..Default::default() },
+            reindex: 3, restart: 2, ext_id: 10, advance_small: 3, advance_big: 4, repl: 8, abort: 3, ..Default::default() },
     };
     let after = |_w: &World, _rec: &LogRec, _s: &SchemaSnap, _acc: &mut Acc| Vec::new();
     let end = |_w: &World, _q: bool, _s: &[SchemaSnap], _a: &mut Acc| -> Vec<Finding> { Vec::new() };
@@ -219,8 +254,9 @@ pub fn c03(args: Args) {
         if rec.op.target() != 0 { return Vec::new(); }
         lookups(w.qs(0), &w.dumps[0]).await
     }), at_end_async: &|w| Box::pin(async move { rebuild_equivalence(w).await }) }));
-    for k in ["create", "rename", "delete", "revive", "purge_recycled", "reindex", "restart", "repl"] {
-        let ok = run.acc.get(&format!("op.{k}.ok")) > 0;
+    for k in ["create", "rename", "delete", "revive", "purge_recycled", "reindex", "restart", "repl", "ext_id"] {
+        // a purge that finds nothing old enough is still an executed purge
+        let ok = run.acc.get(&format!("op.{k}.ok")) > 0 || (k.starts_with("purge") && run.acc.get(&format!("op.{k}.noop")) > 0);
         run.require(ok, &format!("operation kind {k} was never accepted"));
     }
     run.finish();
